@@ -87,6 +87,11 @@ def encVal : Val → String
   | .int i => s!"i:{i}" | .bool x => if x then "b:1" else "b:0" | .buf l => "s:" ++ encNats l
   | .str l => "S:" ++ encNats l | .arr l => "a:" ++ ",".intercalate (l.map toString)
   | .obj a => s!"o:{a}" | .null => "null"
+  | .vec l => "V:" ++ ",".intercalate (l.map toString)
+  | .ctx c => s!"ctx:{c.size}"
+  | .carr n l b => s!"C:{n}:{l}:" ++ encNats b
+  | .ptrs l => "P:" ++ ";".intercalate (l.map encNats)
+  | .ref a l => s!"R:{a}:" ++ ",".intercalate (l.map toString)
 
 def dv (s : String) : Val := decVal (s.splitOn ":")
 
